@@ -2,7 +2,7 @@
    Only property theorems, each closed by quoting lemmas proved elsewhere, and Print Assumptions.
    Generated from Properties/bodies/C06.v.in by mkprop.py (shared preamble: hdr.txt, sec.txt). *)
 From Coq Require Import Arith NArith Bool List Lia.
-Require Import Canon SemTk CountTk TableProto BddBase BddIte BddCR BddSat BddCof BddCof2 BddCtor BddEval BddPaths BddPathsCount BddReach BddExport BddDot BddMinimal BddTerm Glue Machine Reachable OpSpecs.
+Require Import Canon SemTk CountTk TableProto BddBase BddIte BddCR BddSat BddCof BddCof2 BddCtor BddEval BddPaths BddPathsCount BddReach BddExport BddDot BddMinimal BddTerm BddTerm2 Glue Machine Reachable OpSpecs FuelMono FuelMono2.
 Import ListNotations.
 Local Open Scope N_scope.
 
@@ -80,6 +80,28 @@ Section C06.
   Proof.
     intros HA HC HP H. destruct (table_history_peak node node_eqb node_eqb_spec nhash pin fuel h t p t' p' HA HC HP H) as (A & B & _). auto.
   Qed.
+  (* the manager stops ONLY with "Storage is full": for every reachable state and EVERY operation line (constructors,
+     ITE, connectives, folds, expressions, cofactors, compose, constrain, restrict, all queries, exports, collection)
+     there is a fuel bound from which on the model's step yields no result only if the node table filled up on the way
+     (an invariant-respecting extension of the store in which every cell 1 .. capacity-1 is occupied); no operation
+     loops, and malformed argument lines are skipped rather than failing *)
+  Theorem C06_only_storage_full_stops_any_operation mr o : reachable mr ->
+    exists bound, forall fuel, (bound <= fuel)%nat -> mstep fuel mr o = None ->
+      exists s', sext (store mr) s' /\ Inv s' /\ storage_full node (tbl s').
+  Proof. exact (mstep_progress nhash khash bmask cmask0 smask0 capacity cap_ok mr o). Qed.
+  (* "an extension of the store with a full table" can be exhibited from any state of a finite table, so on its own the
+     theorem above says little for the concrete manager; what makes it informative is that the fuel is NOT an observable:
+     for every reachable state and every operation line (resp. every history) there is a bound above which the outcome --
+     new state, registers and output, or no result -- is the same for every amount of fuel.  A missing result above the
+     bound is therefore never an out-of-fuel artefact of the model; by inspection of the model the only other source of a
+     missing result is a failed `put`, i.e. the crate's "Storage is full" panic. *)
+  Theorem C06_fuel_is_not_an_observable mr o : reachable mr ->
+    exists bound, forall k k', (bound <= k)%nat -> (bound <= k')%nat -> mstep k mr o = mstep k' mr o.
+  Proof. exact (mstep_fuel_irrelevant nhash khash bmask cmask0 smask0 capacity cap_ok mr o). Qed.
+  Theorem C06_fuel_is_not_an_observable_of_histories h mr : reachable mr ->
+    exists bound, forall k k', (bound <= k)%nat -> (bound <= k')%nat ->
+      Reachable.mrun nhash khash k mr h = Reachable.mrun nhash khash k' mr h.
+  Proof. exact (mrun_fuel_irrelevant nhash khash bmask cmask0 smask0 capacity cap_ok h mr). Qed.
 End C06.
 
 Print Assumptions C06_count_after_gc.
@@ -92,3 +114,6 @@ Print Assumptions C06_peak_kept_by_gc.
 Print Assumptions C06_high_water_mark_every_state.
 Print Assumptions C06_put_succeeds_when_room.
 Print Assumptions C06_table_history_peak.
+Print Assumptions C06_only_storage_full_stops_any_operation.
+Print Assumptions C06_fuel_is_not_an_observable.
+Print Assumptions C06_fuel_is_not_an_observable_of_histories.
